@@ -483,15 +483,16 @@ def _exc_name(text):
     return next((x for x in parts if x.endswith(("Error", "Exception", "Warning"))), parts[0])
 
 
-def agree(real, exp, tol):
-    """NaN-safe comparison with an expected array in which NaN marks "the real code divides by zero
-    here" (the real entry must then be non-finite)"""
+def agree(real, exp, scale):
+    """NaN-safe comparison (1e-11 relative to max(scale, |expected|) per entry) with an expected array in
+    which NaN marks "the real code divides by zero here" (the real entry must then be non-finite)"""
     real, exp = np.asarray(real, dtype=float), np.asarray(exp, dtype=float)
     if real.shape != exp.shape:
         return False
     fin = np.isfinite(exp)
     with np.errstate(invalid="ignore"):
-        return bool(np.all(np.abs(real - exp)[fin] <= tol)) and not bool(np.any(np.isfinite(real[~fin])))
+        ok = np.abs(real - exp)[fin] <= 1e-11 * np.maximum(scale, np.abs(exp[fin]))
+        return bool(np.all(ok)) and not bool(np.any(np.isfinite(real[~fin])))
 
 
 def side_float_values(s):
@@ -1262,7 +1263,7 @@ def run(ctx):
                 g, n = face_slices(c, ax, up)
                 exp = (marr[g] + marr[n]) / 2
                 ctx.impl_traces += 1
-                if not agree(bv, exp, 1e-11 * _model_scale(model)):
+                if not agree(bv, exp, _model_scale(model)):
                     ctx.disagree("ghost:" + src, {"spec": repr(c["spec"]), "grid": c["grid"], "rank": c["rank"], "axis": ax, "upper": up},
                                  exp.tolist(), bv.tolist(), "boundary values differ from (ghost+cell)/2 of the model")
                 s = c["sides"][(ax, up)]
@@ -1287,7 +1288,7 @@ def run(ctx):
                 continue
             g, _ = face_slices(c, ax, up)
             exp = marr[g]
-            if not agree(vpt, exp, 1e-11 * _model_scale(model)):
+            if not agree(vpt, exp, _model_scale(model)):
                 ctx.disagree("ghost:get_virtual_point", {"spec": repr(c["spec"]), "grid": c["grid"], "rank": c["rank"], "axis": ax, "upper": up},
                              exp.tolist(), vpt.tolist(), "virtual points differ")
             # monitor: the virtual points returned for this face satisfy the face's defining equation
